@@ -265,6 +265,31 @@ def run(tier, seed, replay=None):
                 pass
         corr_items.append((outer, [], "default"))
         res.sample({"shape": label, "position": path[0], "default": d}, limit=5)
+    # ---- objects that share a title and differ ONLY in their description: each class keeps its own ------------------
+    from statham.schema.constants import NotPassed as _NP
+    for d1, d2 in ([] if replay else [("Where the invoice goes.", "Where the parcel goes."), ("a", ""), ("x", "x ")]):
+        addr = lambda desc: dict({"type": "object", "title": "Address", "properties": {"street": {"type": "string"}}},  # noqa
+                                 **({"description": desc} if desc is not None else {}))
+        s = {"type": "object", "title": "Order", "properties": {"billing": addr(d1), "shipping": addr(d2), "previous": addr(None), "again": addr(d1)}}
+        res.count("desc-shared:" + d1 + "|" + d2, nontrivial=True)
+        try:
+            e = parse_element(copy.deepcopy(s))
+            got = {k: e.properties[k].element.description for k in ("billing", "shipping", "previous", "again")}
+            want = {"billing": d1, "shipping": d2, "previous": _NP(), "again": d1}
+            bad = [k for k in want if not ((isinstance(want[k], _NP) and isinstance(got[k], _NP)) or got[k] == want[k])]
+            stats["descriptions"] += 4
+            if bad:
+                res.violation({"property": "C07", "schema": s, "kind": "oracle",
+                               "what": "the class built for %r carries the description %r, its schema says %r" % (bad[0], got[bad[0]], None if isinstance(want[bad[0]], _NP) else want[bad[0]])})
+            else:
+                doc = serialize_json(e)
+                defs = doc.get("definitions", {})
+                descs = sorted(str(v.get("description")) for v in defs.values())
+                if descs != sorted(str(x) for x in [d1, d2, None]):
+                    res.violation({"property": "C07", "schema": s, "kind": "oracle", "json": doc,
+                                   "what": "serialize_json carries the descriptions %r for the three distinct Address classes, the schema says %r" % (descs, [d1, d2, None])})
+        except BaseException:  # noqa
+            pass
     # ---- descriptions of object schemas -> class description -> docstring ---------------------------------------
     for desc in ([] if replay else DESCRIPTIONS + [rng.choice(DESCRIPTIONS) + rng.choice(DESCRIPTIONS) for _ in range(6 if tier == "quick" else 60)]):
         s = {"type": "object", "title": "Described", "description": desc, "properties": {"inner": {"type": "object", "title": "Inner", "description": desc[::-1]}}}
